@@ -158,6 +158,7 @@ def validate_traces(traces, label="pipeline"):
         lines += [json.dumps(e) for e in t]
     r = core.run_tlc("Trace_Pipeline.tla", "Trace_Pipeline.cfg", workers=1, timeout=1800,
                      extra_files={"trace.ndjson": "\n".join(lines) + "\n"}, want_emits=False)
+    core.check_tlc_error(r, "validating pipeline traces")
     hw = None
     for ln in r.raw_tail.split("\n"):
         if ln.startswith('<<"HW"'):
